@@ -19,6 +19,7 @@ VERDICT_CEX = "counterexample"
 VERDICT_NOT_CONFIRMED = "not_confirmed"
 VERDICT_NO_PRE = "unable_to_meet_precondition"
 VERDICT_ERROR = "error"
+VERDICT_SKIPPED = "skipped"
 
 STATS = {"conditions": 0, "confirmed": 0, "counterexamples": 0, "inconclusive": 0, "crosshair_s": 0.0}
 
@@ -125,3 +126,40 @@ def run_conditions(path, jobs, workers=None):
     with ThreadPoolExecutor(max_workers=workers) as ex:
         futs = [ex.submit(run_condition, path, f, t, e) for (f, t, e) in jobs]
         return [f.result() for f in futs]
+
+
+def run_jobs(jobs, budget_s=None, workers=None):
+    """jobs: list of (path, funcname, timeout_s, extra_env, required).  Required jobs always run with their own
+    timeout.  Optional jobs (the thorough tier's deeper slices) share a wall-time budget: one that is not started
+    before the deadline is skipped, one that is running has its timeout cut to what is left.  -> list of Result"""
+    workers = workers or harness.nprocs()
+    if budget_s is None:
+        budget_s = float(os.environ.get("VERIF_BUDGET_S", "0") or 0) or None
+    deadline = (time.time() + budget_s) if budget_s else None
+
+    def one(j):
+        path, fn, tmo, env, required = j
+        if not required and deadline is not None:
+            left = deadline - time.time()
+            if left < 20:
+                return Result(fn, VERDICT_SKIPPED, "not started within the time budget")
+            tmo = max(20, min(tmo, int(left)))
+        return run_condition(path, fn, tmo, env)
+    # required jobs first, so that the budget only ever cuts optional ones
+    order = sorted(range(len(jobs)), key=lambda i: (not jobs[i][4], i))
+    out = [None] * len(jobs)
+    with ThreadPoolExecutor(max_workers=workers) as ex:
+        futs = {i: ex.submit(one, jobs[i]) for i in order}
+        for i, f in futs.items():
+            out[i] = f.result()
+    return out
+
+
+def unfinished(rep, label, r, required):
+    """files a condition that is neither confirmed nor refuted: inconclusive when it is part of the claim (required),
+    not explored when it is an optional deeper slice that CrossHair did not finish within its time"""
+    text = "%s: CrossHair verdict %s (%s)" % (label, r.verdict, r.message[:200])
+    if not required and r.verdict in (VERDICT_SKIPPED, VERDICT_NOT_CONFIRMED, VERDICT_ERROR, VERDICT_NO_PRE):
+        rep.inconcl(harness.SKIP_MARK + ": " + text)
+    else:
+        rep.inconcl(text)
